@@ -9,6 +9,7 @@ import (
 	"sort"
 	"sync"
 	"testing"
+	"time"
 
 	"github.com/ethereum/go-ethereum/common"
 	"github.com/ethereum/go-ethereum/core/rawdb"
@@ -183,7 +184,7 @@ type runner struct {
 	nobs  int
 }
 
-func (r *runner) obs(b []byte) { r.lh = r.lh.Bytes(b).U64(uint64(len(b))); r.nobs++ }
+func (r *runner) obs(b []byte)  { r.lh = r.lh.Bytes(b).U64(uint64(len(b))); r.nobs++ }
 func (r *runner) obsU(v uint64) { r.lh = r.lh.U64(v); r.nobs++ }
 
 func (r *runner) failf(oracle, format string, a ...any) {
@@ -224,6 +225,12 @@ func Run(t *testing.T, pl any) (res *simcore.Result) {
 	}()
 	if p.Gated {
 		var inner any
+		t0 := time.Now()
+		defer func() {
+			if trace {
+				fmt.Printf("gated run: %d gate steps, %d with a choice, %v wall\n", r.res.Probes["gate-steps"], r.res.Probes["schedule-choices"], time.Since(t0))
+			}
+		}()
 		dl := simsched.Bubble(t, func() {
 			defer func() { inner = recover() }()
 			r.gated()
@@ -255,6 +262,7 @@ func (r *runner) gated() {
 	})
 	s.Run()
 	r.res.SchedFP = s.FP()
+	r.res.Probes["gate-steps"] += s.Steps()
 	if s.Choices() > 0 {
 		r.res.Probe("schedule-choice")
 		r.res.Probes["schedule-choices"] += s.Choices()
@@ -597,7 +605,11 @@ func (r *runner) probeTx(m *Model) {
 // current triedb and compares all accounts, code and storage with the model.
 func (r *runner) verifyAll(label string, root common.Hash, w World, rules int) {
 	save := r.where
-	defer func() { r.where = save }()
+	// read-back is single-threaded (no prefetcher, no workers with pending reads):
+	// nothing to schedule, so its disk reads are not gates
+	gate := r.kv.GateReads
+	r.kv.GateReads = false
+	defer func() { r.where = save; r.kv.GateReads = gate }()
 	check := func(name string, st *state.StateDB) {
 		r.where = label + " via " + name
 		vm := NewModel()
